@@ -115,6 +115,13 @@ def run(ctx):
                ("1 group (2,1), freq 2 start 4, 6 calls, hyper", [G([1, 1, 2], [2, 2, 2], start=4, graft=True)], 6, (), hm)]
     sp.run_mc(ctx, mc, [])
     tasks = sp.gen_tasks(ctx, rng, 14 if quick else 80, 14 if quick else 40, make_groups, 8, (), ("mom", "b1", "wd", "lr"))
+    # structured sparsity on blocks with modes of size >= 3 (exactly zero slices: the factor's diagonal fast path and its hand-over)
+    st = sp.gen_tasks(ctx, rng, 4 if quick else 16, 5 if quick else 12,
+                      lambda r: [family.draw_group(r, r.choice(["big", "rect", "rem1", "t4", "s0v", "many"]), kind="shampoo")], 7, (), ("lr",))
+    for d, _, _ in st:
+        d.update(grad_mode=rng.choice(["striped", "striped", "sparse_first"]), sparse_steps=rng.choice([3, 100]), stripe_largest=rng.random() < 0.7)
+        d.pop("grad_scales", None)
+    tasks += st
     # bounded-exhaustive: every behaviour of depth 4 of a 2-param group around the start / refresh boundary
     tasks += sp.exhaustive_tasks(ctx, rng, [family.draw_group(rng, "m2x2", kind="shampoo", freq=2, start=3)], 4 if quick else 5, (), ())
     sp.run_rt(ctx, tasks, owns, "update_rule")
